@@ -18,7 +18,7 @@ RULE = ('random 2-D/3-D crystals (all lattice systems, one or several Wyckoff se
         'only networks with a non-singular exact D (lambda_min > 0.02 |D|) - a Green function does not exist otherwise; '
         'non-trivial = every evaluated (i,j,R); distinct = (kind, sites, classes, components, sigma)')
 ASSUMPTIONS = ['integration tolerances (Nmax=4): lattice-equation residual 1e-3 (observed 1e-10..3.3e-4 typically), or - for rate ratios that the fixed '
-               'mesh cannot resolve (observed 5e-2 at Nmax=4 -> 1e-2 at Nmax=8 -> 5e-3 at 12) - reduced to at most 0.7 of it at Nmax=8 (2-D meshes converge like 1/N_k); not larger at Nmax=6; symmetry / space-group invariance 1e-6 relative, scaling 1e-9, bias correction 1e-5',
+               'mesh cannot resolve (observed 5e-2 at Nmax=4 -> 1e-2 at Nmax=8 -> 5e-3 at 12) - reduced to at most 0.7 of it at Nmax=8 (2-D meshes converge like 1/N_k), or - convergence is not monotonic - at most half of the larger of the Nmax=4 and Nmax=8 residuals at Nmax=16 (2-D) / 12 (3-D); largest residual of a case not above 1.5 x at Nmax=8; symmetry / space-group invariance 1e-6 relative, scaling 1e-9, bias correction 1e-5',
                'far field: evaluated with mild rates (ratios <= 2) because a nearly decoupled sub-network pushes the continuum regime beyond '
                'the mesh; g/pole within 10 % (named nearest-neighbour crystals, strong site-energy differences) or 25 % (random crystals with '
                'long jumps) at 3 and mesh/4 cells and not drifting away with distance - catches a wrong volume / sqrt(p) / factor 2 / additive constant',
@@ -113,6 +113,7 @@ def run_case(case):
         pairs.append((0, 0, np.zeros(dim, dtype=int)))
         resids = []
         GF8 = [None]
+        GF12 = [None]
         for (i, j, R) in pairs:
             x = pos(j, R) - pos(i, np.zeros(dim))
             try:
@@ -138,8 +139,26 @@ def run_case(case):
                 except Exception as e:
                     r8 = np.inf
                 mon.count('slowly_converging_residuals')
-                mon.check(abs(r8) <= 0.7 * abs(res), 'C10:lattice-equation',
-                          lambda: 'residual %.3e (Nmax=4) -> %.3e (Nmax=8) at (i,j,R)=(%d,%d,%s) %s' % (res, r8, i, j, R.tolist(), dt()))
+                r12 = None
+                okres = abs(r8) <= 0.7 * abs(res)
+                if not okres:
+                    # convergence is not monotonic in the mesh density (observed 1.9e-3, 2.2e-3, 1.4e-3, 6.8e-4, 3.8e-4 and
+                    # 2.0e-3, 5.8e-3, 3.9e-3, 1.7e-3, 9.7e-4 at Nmax 4, 6, 8, 12, 16 on anisotropic 2-D networks): a much denser mesh decides -
+                    # at most half of the larger of the two coarse residuals
+                    Nfine = 16 if dim == 2 else 12
+                    try:
+                        if GF12[0] is None:
+                            GF12[0] = GFcalc.GFCrystalcalc(crys, chem, sl, jn, Nfine)
+                            GF12[0].SetRates(w['pre'], w['bE'], w['preT'], w['bET'])
+                        r12 = -esc[i] * GF12[0](i, j, x) - (1. if (i == j and not np.any(R)) else 0.)
+                        for (a, k, dx, wr) in rates:
+                            if a == i: r12 += wr * GF12[0](k, j, x - dx)
+                    except Exception as e:
+                        r12 = np.inf
+                    mon.count('residuals_decided_on_finest_mesh')
+                    okres = abs(r12) <= 0.5 * max(abs(res), abs(r8))
+                mon.check(okres, 'C10:lattice-equation',
+                          lambda: 'residual %.3e (Nmax=4) -> %.3e (Nmax=8) -> %s (Nmax=16 in 2-D, 12 in 3-D) at (i,j,R)=(%d,%d,%s) %s' % (res, r8, r12, i, j, R.tolist(), dt()))
             else:
                 mon.check(True, 'C10:lattice-equation')
             mon.note_max('lattice_residual', abs(res))
@@ -195,7 +214,7 @@ def run_case(case):
         # convergence with the k-point density (subsample)
         if case['idx'] % 4 == 0 and done == 1 and resids:
             try:
-                GF6 = GFcalc.GFCrystalcalc(crys, chem, sl, jn, 6)
+                GF6 = GFcalc.GFCrystalcalc(crys, chem, sl, jn, 8)
                 GF6.SetRates(w['pre'], w['bE'], w['preT'], w['bET'])
                 r6 = []
                 for (i, j, R) in pairs:
@@ -204,8 +223,8 @@ def run_case(case):
                     for (a, k, dx, wr) in rates:
                         if a == i: res += wr * GF6(k, j, x - dx)
                     r6.append(abs(res))
-                mon.check(max(r6) <= max(max(resids), 1e-7), 'C10:converges-with-mesh',
-                          lambda: 'max residual Nmax=4: %.3e, Nmax=6: %.3e %s' % (max(resids), max(r6), dt()))
+                mon.check(max(r6) <= max(1.5 * max(resids), 1e-7), 'C10:converges-with-mesh',
+                          lambda: 'max residual Nmax=4: %.3e, Nmax=8: %.3e %s' % (max(resids), max(r6), dt()))
             except Exception as e:
-                mon.fail('C10:Nmax6:raises:' + type(e).__name__, str(e)[:300] + dt())
+                mon.fail('C10:Nmax8:raises:' + type(e).__name__, str(e)[:300] + dt())
     return mon.result(sample=sample)
